@@ -384,6 +384,25 @@ def run():
                     ie = dims.index(i)
                     if acc['eta%d' % i] != [(k, eta[i][st[ie] + k]) for k in range(sh[ie])]:
                         bad = 'getEta(%d)' % i
+                # the Coq model of the accessors (Accessors.v: c02_coord_vals, c02_get_eta) on the same layout, values as indices
+                ma = core.model(['acc %s | %s | %s | %s' % (' '.join(map(str, N)), ' '.join(map(str, nprocs)), ' '.join(map(str, dims)),
+                                                            ' '.join(map(str, out['coords'])))])[0]
+                try:
+                    m_ax, m_eta = ma.split(' || ')
+                    m_ax = [[int(x) for x in t.split()] for t in m_ax.split(' ; ')] if d > 1 else [[int(x) for x in m_ax.split()]]
+                    m_eta = [[tuple(int(y) for y in x.split(':')) for x in t.split()] for t in (m_eta.split(' ; ') if d > 1 else [m_eta])]
+                except ValueError:
+                    raise core.BrokenCheck('acc: model answers %r' % ma)
+                for i in range(d):
+                    e = dims[i]
+                    got_ax = [int(round((v - 1.0 - 10 * e) / 0.5)) for v in acc['cvals%d' % i]]
+                    got_eta = [(k, int(round((v - 1.0 - 10 * i) / 0.5))) for k, v in acc['eta%d' % i]]
+                    if got_ax != m_ax[i] or got_eta != m_eta[i]:
+                        chk.violation('grid.Grid:accessor-model', 'config %r rank %d layout %s: getCoordVals(%d) / getEta(%d) = %r / %r, model %r / %r'
+                                      % (c, rk, dims, i, i, got_ax, got_eta, m_ax[i], m_eta[i]),
+                                      {'kind': 'correspondence' if not bad else 'impl', 'theorem': 'c02_coord_vals / c02_get_eta', 'case': list(c),
+                                       'rank': rk, 'layout': dims}, no_input=not bad)
+                        break
                 if 'ggi' in acc:
                     loc, gi = acc['ggi']
                     exp = [None] * d
@@ -447,7 +466,7 @@ def run():
                       extra={'exhaustive_box': box, 'exprt': info_t if ok_t else {'broken': info_t}},
                       uncovered=['buffer sufficiency is proved for the first layout and for the source layout of every enumerated pair (c02_pair_bufsize_ge_size); '
                                  'for the destination layout of a pair / the reverse orientation it is exercised (arrays of exactly bufferSize in every transpose), not proved',
-                                 'getCoords/getEta/getCoordVals value lookups are checked on real Grid objects, not modelled in Coq'])
+                                 ])
 
 
 _mod_cache = {}
